@@ -1,15 +1,23 @@
 """Parts (see parts.py) that bring the remaining public surface of nutree into the model:
 
-  MAPPER  (host C14)  common.call_mapper and its five call sites          -> Forest/MiscMapper.v, Cases/CaseMiscMapper.v
-  WRAP    (host C02)  common.DictWrapper                                  -> Forest/MiscWrap.v,   Cases/CaseMiscWrap.v
-  NODEMISC(host C10)  Node.path/get_children/is_system_root/__repr__, Tree.__eq__/get_random_node/system_root/len/bool/
-                      count/first_child/last_child/__repr__, TypedNode.__repr__ -> Forest/MiscNode.v, Cases/CaseMiscNode.v
-  REMOVED (host C01)  what Tree._unregister(clear=True) leaves on a removed node, every public accessor of it
-                                                                           -> Forest/MiscRemoved.v, Cases/CaseMiscRemoved.v
-  PRINT   (host C16)  Tree.print = print(format(...)) with the same arguments -> Forest/MiscPrint.v, Cases/CaseMiscPrint.v
+  MAPPER     (host C14)  common.call_mapper and its call sites                         Forest/MiscMapper.v      Cases/CaseMiscMapper.v
+  COMMONMISC (host C14)  check_python_version, PYTHON_VERSION, the exception hierarchy  Forest/MiscCommon.v      Cases/CaseMiscCommon.v
+  WRAP       (host C02)  common.DictWrapper                                            Forest/MiscWrap.v        Cases/CaseMiscWrap.v
+  NODEMISC   (host C10)  Node.path/get_children/is_system_root/__repr__, Tree.__eq__/get_random_node/system_root/len/bool/count/
+                         first_child/last_child/__repr__, TypedNode.__repr__           Forest/MiscNode.v        Cases/CaseMiscNode.v
+  FORWARD    (host C10)  Node.__getattr__ (forward_attrs)                              Forest/MiscForward.v     Cases/CaseMiscForward.v
+  REMOVED    (host C01)  what Tree._unregister(clear=True) leaves on a removed node, every public accessor of it
+                                                                                       Forest/MiscRemoved.v     Cases/CaseMiscRemoved.v
+  SELFCHECK  (host C01)  Tree._self_check on the pointer-level state                   Mut/MiscSelfCheck.v      Cases/CaseMiscSelfCheck.v
+  PRINT      (host C16)  Tree.print, the default rendering templates                   Forest/MiscPrint.v, MiscRender.v   Cases/CaseMiscPrint.v
+  MERMAIDDEF (host C17)  to_mermaid_flowchart without options (signature defaults)     Forest/MiscMermaid.v     Cases/CaseMiscMermaid.v
+  WRITERS    (host C17)  to_dotfile / to_mermaid_flowchart as writers (stream, path, format=, partial output)
+                                                                                       Forest/MiscWriters.v     Cases/CaseMiscWriters.v
+  ZIPIO      (host C05)  open_as_compressed_output_stream / open_as_uncompressed_input_stream   Forest/MiscZipIO.v   Cases/CaseMiscZipIO.v
 
 Every part: generator (incl. unusual inputs), observation of the implementation, Coq input term, and an oracle written from
-the statement, independent of the Coq model (identity checks on the real objects)."""
+the statement, independent of the Coq model (identity checks on the real objects).  Theorems: at the end of the host's
+coq/Properties/Cxx.v; proofs in the matching Misc*Proofs.v."""
 from __future__ import annotations
 
 import copy
@@ -524,7 +532,7 @@ class WrapPart:
                         arg = (wraps[0] if wraps else DictWrapper()) if a[1] == "wrapper" else NON_DICTS[a[1]]
                         w = DictWrapper(arg, **kw)
                     if a in (None, "none"):
-                        if any(w._dict is d for d in dicts) or w._dict is kw and False:
+                        if any(w._dict is d for d in dicts):
                             bad("DictWrapper(**kw): the wrapped dict must be a new object")
                         if list(w._dict.items()) != list(kw.items()):
                             bad("DictWrapper(**kw): the wrapped dict must hold exactly the keywords")
